@@ -229,6 +229,8 @@ NULL_SPACE_SAMPLES = (
     [[1, 1, 1, 1, 1, 1, 1, 1], [0, 1, 0, 1, 0, 1, 0, 1], [0, 0, 1, 1, 0, 0, 1, 1], [0, 0, 0, 0, 1, 1, 1, 1]],
     [[0, 1, 1, 0], [1, 1, 0, 1]],
     [[1, 1, 0, 1, 0], [1, 1, 1, 0, 1], [0, 0, 0, 1, 1]],
+    # rank-deficient (third row = first + second): the null space has dimension n - rank = 2
+    [[1, 1, 0, 1], [0, 1, 1, 0], [1, 0, 1, 1]],
 )
 
 
